@@ -34,7 +34,11 @@ theorem kdf_conforms (H : Hash) (hout : ∀ b, (H.h b).length = H.outLen) (hpos 
 theorem xmd_sha256_conforms (n : Nat) (inp dst : Bytes) (hlen : 8 * (inp.length + 1000) < 2 ^ 64) :
     Md.mdXmd Md.sha256Stream n inp dst
       = Mac.expandMessageXmd { h := Spec.Sha256.sha256, outLen := 32, blockLen := 64 } inp dst n := by
-  sorry
+  apply mdXmd_eq Md.sha256Stream { h := Spec.Sha256.sha256, outLen := 32, blockLen := 64 } n inp dst
+    _ rfl rfl sha256_length (by decide) (by decide)
+  intro cs hcs
+  have hcs' : cs.flatten.length ≤ 64 + inp.length + 32 + 259 := hcs
+  exact sha256_streaming cs (by omega)
 
 /-- AES-CBC with PKCS#7: the model of bc_aes_cbc_enc is CBC ∘ PKCS#7, and decryption inverts encryption
     whenever the block decryption inverts the block encryption (hypothesis `hED`) -/
@@ -44,7 +48,32 @@ theorem aes_cbc_roundtrip (mkE mkD : Bytes → Bytes → Bytes) (key iv m : Byte
     (hiv : iv.length = 16) (c : Bytes)
     (henc : Bc.bcAesCbcEnc mkE cap m key iv = some c) :
     Bc.bcAesCbcDec mkD c.length c key iv = some m := by
-  sorry
+  simp only [Bc.bcAesCbcEnc] at henc
+  by_cases hkey : key.length ≠ 16 ∧ key.length ≠ 24 ∧ key.length ≠ 32
+  · rw [if_pos hkey] at henc
+    split at henc <;> simp at henc
+  rw [if_neg hkey] at henc
+  split at henc
+  · simp at henc
+  rw [padEncrypt_eq (mkE key) hE iv hiv m] at henc
+  obtain ⟨hP16, hPpos⟩ := pkcs7Pad_length m
+  generalize hPdef : Aes.pkcs7Pad m = P at *
+  obtain ⟨hBf, hB16⟩ := flatten_chunks16 (P.length / 16 + 1) P (by omega) hP16
+  generalize hBdef : Aes.chunks16 (P.length / 16 + 1) P = B at *
+  obtain ⟨hCSl, hCS16⟩ := cbcEnc_blocks (mkE key) hE iv hiv B hB16
+  have hc : c = (Aes.cbcEnc (mkE key) iv B).flatten := by simpa using henc.symm
+  have hcl : c.length = P.length := by
+    rw [hc, flatten_length16 _ hCS16, hCSl, ← flatten_length16 _ hB16, hBf]
+  unfold Bc.bcAesCbcDec
+  rw [if_neg (by omega), if_neg hkey, padDecrypt_eq (mkD key) hD iv hiv c,
+    if_neg (by omega)]
+  have hfuel : (Aes.cbcEnc (mkE key) iv B).length ≤ c.length / 16 + 1 := by
+    have := flatten_length16 _ hB16
+    rw [hBf] at this
+    omega
+  rw [hc, chunks16_flatten _ hCS16 _ (by rw [← hc]; exact hfuel),
+    cbc_roundtrip (mkE key) (mkD key) hED hE iv hiv B hB16, hBf, ← hPdef]
+  exact pkcs7_roundtrip m
 
 /-- ciphertexts whose decryption does not end in a well-formed padding are rejected, never returned -/
 theorem aes_cbc_rejects_bad_padding (mkD : Bytes → Bytes → Bytes) (key iv c m : Bytes) (cap : Nat)
@@ -53,7 +82,16 @@ theorem aes_cbc_rejects_bad_padding (mkD : Bytes → Bytes → Bytes) (key iv c 
     c.length ≠ 0 ∧ c.length % 16 = 0 ∧
     ∃ k : Nat, 1 ≤ k ∧ k ≤ 16 ∧
       (Aes.cbcDec (mkD key) iv (Aes.chunks16 (c.length / 16 + 1) c)).flatten = m ++ List.replicate k (UInt8.ofNat k) := by
-  sorry
+  unfold Bc.bcAesCbcDec at hdec
+  split at hdec
+  · simp at hdec
+  split at hdec
+  · simp at hdec
+  rw [padDecrypt_eq (mkD key) hD iv hiv c] at hdec
+  split at hdec
+  · simp at hdec
+  rename_i hcond
+  exact ⟨by omega, by omega, pkcs7Unpad_sound _ _ hdec⟩
 
 /-- non-vacuity: PKCS#7 of a 3-byte message; the padding split of SHA-256 at 55/56 bytes -/
 example : Aes.pkcs7Pad [1, 2, 3] = [1, 2, 3] ++ List.replicate 13 13 := by decide
